@@ -75,7 +75,8 @@ func CaseInsensitiveCompare(a, b []byte) bool {
 		return false
 	}
 	for i := 0; i < len(a); i++ {
-		if a[i]|0x20 != b[i]|0x20 {
+		// fold letters only: OR-ing 0x20 also equates other byte pairs, e.g. CR with '-'
+		if bytesconv.ToLowerTable[a[i]] != bytesconv.ToLowerTable[b[i]] {
 			return false
 		}
 	}
